@@ -38,7 +38,7 @@ PLAN = {
                                         'default_fft', 'batched']},
               exhaustive_scope='thorough tier only: the enumerated box of the sweep (see coverage.extra.sweep_box)'),
     'C14': _p(shards={'x32': 12, 'x64': 4}, quick=110, thorough=2500,
-              exhaustive_scope='layer 1 only: every string of the stated grammar over {h,i,j,k} that numpy accepts'),
+              exhaustive_scope='layer 1 only: every string of the stated grammar over {h,i,j,k} (2 217 984 strings; the ones furax rejects outside the must-accept class are counted, the others judged)'),
     'C13': _p(shards={'x32': 10, 'x64': 6}, quick=150, thorough=3000,
               exhaustive_scope='the enumerated box of the sweep (see coverage.extra.sweep_box), not the Hypothesis part'),
     'C11': _p(shards={'x32': 10, 'x64': 6}, quick=150, thorough=3000,
